@@ -59,6 +59,12 @@ def prepare_environment() -> None:
     import warnings
 
     warnings.simplefilter("ignore")
+    try:  # progress bars must not start a monitor thread (a real thread, a real clock)
+        import tqdm
+
+        tqdm.tqdm.monitor_interval = 0
+    except Exception:
+        pass
 
 
 # --------------------------------------------------------------------------- single runs
